@@ -184,7 +184,11 @@ OrigTail == kind = "orig+tail" => LET f == Frame(buf) IN f.v = "Msg" /\ f.n = Le
 TruncNeedMore == kind = "trunc" => Frame(buf).v = "NeedMore"
 AltFormSame == kind = "outer-altform" => LET f == Frame(buf) IN f.v = "Msg" /\ f.n = Len(buf) /\ f.m = PoolDef[src].m
 ScanDecAgree == OuterSatisfied(buf) =>
-                  LET f == Frame(buf)  fb == SubSeq(buf, 1, f.n) IN (Scan(fb, 1, f.n + 1) = "ok") <=> DecOne(fb).ok
+                  LET f == Frame(buf)  fb == SubSeq(buf, 1, f.n)  sc == Scan(fb, 1, f.n + 1) IN
+                  \* ("ood": a form outside the domain this module reasons about, e.g. a length padded to more than four octets,
+                  \*  which the general reader of Ber.tla now follows - no claim either way)
+                  /\ (sc = "ok") => DecOne(fb).ok
+                  /\ (sc = "bad") => ~DecOne(fb).ok
 (* waiting is the verdict only while the announced octets are missing *)
 NeedMoreOnlyIfShort == Frame(buf).v = "NeedMore" => ~OuterSatisfied(buf)
 
